@@ -186,7 +186,8 @@ func (c *cache[K, V]) DeleteExpired() error {
 
 	c.mu.Lock()
 	for k, item := range c.items {
-		if now > item.expiration && item.expiration != int64(NoExpiration) {
+		// Only a positive expiration is a deadline: 0 and NoExpiration never expire.
+		if item.expiration > 0 && now > item.expiration {
 			if e := c.delete(k); e != nil {
 				err = errors.Join(err, e)
 			}
